@@ -204,8 +204,8 @@ func hashFields(fs modbus.Fields, ti int) uint64 {
 }
 
 // build hands the fields to a builder in one of several ways a caller may use (all give the builder the same logical list).
-func build(fields modbus.Fields, usage int) *modbus.Builder {
-	b := modbus.NewRequestBuilder("", 0)
+func build(fields modbus.Fields, usage int, sel uint64) *modbus.Builder {
+	b := fieldgen.NewBuilder(sel)
 	switch usage {
 	default: // one AddAll with an exactly sized copy
 		b.AddAll(append(modbus.Fields{}, fields...))
@@ -243,7 +243,7 @@ func observe(c *Case, r *mon.Rec, t target, fields modbus.Fields) {
 	if c.Kind == "random" {
 		usage = int(uint64(c.Seed) % 4)
 	}
-	b := build(fields, usage)
+	b := build(fields, usage, uint64(c.Seed)>>3)
 	var reqs []modbus.BuilderRequest
 	var err error
 	if p, txt := mon.Catch(func() { reqs, err = t.call(b) }); p {
